@@ -11,8 +11,8 @@ from . import common
 PROP = "C18"
 LEVEL = "exploration"
 RULE = (
-    "X-ENUM, complete over: every string over a 9-symbol alphabet (ASCII letter, digit, space, newline, double quote, backslash, "
-    "e-acute, euro sign, an astral-plane character) of length 0..5 (quick) / 0..6 (thorough) as the 'code' value, crossed with both "
+    "X-ENUM, complete over: every string over an 11-symbol alphabet (ASCII letter, digit, space, newline, double quote, backslash, "
+    "e-acute, euro sign, an astral-plane character, a lone high surrogate, a lone low surrogate - the halves a UTF-16 editor leaves when text is cut inside a pair) of length 0..5 (quick) / 0..6 (thorough) as the 'code' value, crossed with both "
     "values of 'compact'; every length 0..600 of three fixed fillers (repetitive, incompressible-looking, unicode) so that every "
     "padding length (encoded length mod 4 in {0,2,3}) and the characters '+', '/' and '=' all occur in the un-substituted base64; "
     "a size ladder (2^k - 1, 2^k, 2^k + 1 for k = 10..20, up to 1 MiB, compressible and incompressible fillers); nested JSON values (lists, numbers, booleans, null, nested dicts, empty dict) and all option-name keys.  Oracle: "
@@ -20,9 +20,9 @@ RULE = (
     "calls agree).  distinct_nontrivial counts dictionaries whose plain base64 contained '+', '/' or '=' (the substitutions were "
     "exercised)."
 )
-ASSUME = ["only dictionaries that Python's json module serialises and that compare equal to themselves are generated (string keys; infinities included, NaN excluded because NaN != NaN)"]
+ASSUME = ["only dictionaries that Python's json module itself round-trips are generated (json.loads(json.dumps(d)) == d): string keys; infinities included, NaN excluded because NaN != NaN; a high surrogate directly followed by a low surrogate excluded because JSON reads the two escapes back as one astral character"]
 
-SIGMA = ["a", "7", " ", "\n", '"', "\\", "é", "€", "\U0001F680"]
+SIGMA = ["a", "7", " ", "\n", '"', "\\", "é", "€", "\U0001F680", "\ud83d", "\udc00"]
 URLSAFE = re.compile(r"^[A-Za-z0-9_-]*$")
 
 
@@ -90,7 +90,7 @@ def build_cases(tier):
         else:
             groups = [["".join(t) for t in itertools.product([s0], *([SIGMA] * (ln - 1)))] for s0 in SIGMA]
         for g in groups:
-            dicts = [{"code": s, "compact": b} for s in g for b in (False, True)]
+            dicts = [{"code": s, "compact": b} for s in g if "\ud83d\udc00" not in s for b in (False, True)]
             cases.append({"family": "STRINGS", "dicts": dicts, "key": common.hkey("S", ln, g[0])})
     for lo in range(0, 601, 50):
         dicts = []
@@ -115,6 +115,7 @@ def build_cases(tier):
         {"modules": {"": "from library import a\n", "a": "def f():\n    pass\n"}, "code": "\t\r\n"},
         {"code": "퟿�"},
         # Python's json module serialises infinities by default and they compare equal after the round trip (NaN does not)
+        {"\ud83d": "\udc00x", "code": "a\ud83d", "modules": {"m\udfff": ["\ud800", {"k": "\udbff \udc00"}]}},
         {"code": "x", "limit": float("inf")},
         {"values": [1.5, float("-inf"), float("inf")], "nested": {"a": [float("inf")]}},
     ]
